@@ -10,8 +10,8 @@
 //           pattern reported unique matches at most one string of a candidate set (and does match its literal text)
 //   path    one case = one PathMatcher with 1..3 path patterns and one SegmentedStringMatcher, 8 paths
 //   all     case k -> exact (k%8 in 0..3), escape (4,5), unique (6), path (7)                 (used by the memcheck leg)
-//   regress fixed witnesses F11 F12 F14 F31, the documentation examples, the table of 55 edge patterns
-// opts: classmeta=1 lets the exact part put metacharacters into [..] classes (undocumented; shows what the library does)
+//   regress fixed witnesses F11 F12 F14 F31, class members, the documentation examples, the table of 55 edge patterns
+// opts: pending_caretfirst=1 keeps the complement class whose first member is '^' ("[^^..]") out of the comparison (library defect reported, not yet repaired)
 #include "regex/StringMatcher.h"
 #include "regex/PathMatcher.h"
 #include "regex/SegmentedStringMatcher.h"
@@ -31,8 +31,8 @@ static const std::string EXTRA = "sB9_!:/\"#\xe9\t";
 static const std::string ALPHA = CORE + META + EXTRA;
 static std::string WithoutSlash(const std::string & s) { std::string o; for (size_t i = 0; i < s.size(); i++) if (s[i] != '/') o.push_back(s[i]); return o; }
 static const std::string PALPHA = WithoutSlash(ALPHA);
-static bool optClassMeta = false;
 
+static bool optPendingCaretFirst = false;   // pending_caretfirst=1: keep "[^^..]" (complement whose first member is '^') out of the comparison until the library is repaired
 static char Pick(vh::Rng & g, const std::string & alpha) { return g.R(3) == 0 ? CORE[g.R((uint32_t)CORE.size())] : alpha[g.R((uint32_t)alpha.size())]; }
 static std::string Show(const std::string & s)
 {
@@ -46,18 +46,43 @@ static void HarnessAbort(const std::string & why) { fprintf(stderr, "HARNESS-ABO
 struct GenOpts { const std::string * alpha; bool over; int maxDepth; GenOpts() : alpha(&ALPHA), over(false), maxDepth(3) {} };
 static bool IsF11Partner(unsigned char c) { return isalnum(c) || c == '<' || c == '>' || c == '`' || c == '\''; }
 
-static rw::Node GenClass(vh::Rng & g)
+// Class members: alphanumerics, ranges of them, and (since the repair of the class-member rewriting) every metacharacter on which
+// bash globbing and POSIX brackets agree: ? * , . + | ( ) { } $ = < > ~ ` ' and so on are plain members, ']' directly after '[' / '[^',
+// '-' first or last, '^' anywhere but first, '!' anywhere but first, '[^..]' the complement.  Never generated (refused by the reference
+// parser, counted in the unique / regress parts): '[!..]', a backslash or a '[' inside a class, ranges with metacharacter end points.
+static rw::Node GenClass(vh::Rng & g, const std::string & alpha)
 {
    rw::Node n; n.k = rw::Node::CLASS;
    static const char * ranges[] = {"ab", "af", "19", "az", "09", "AZ", "bw"};
    static const char singles[] = "ab1w_ 9sB";
+   static const char metas[] = "?*,.+|(){}$=<>~`'\"#:";
+   n.neg = (g.R(6) == 0);
+   bool rb = false, dash = false, caret = false, bang = false, meta = false; std::vector<rw::ClassItem> others;
    const uint32_t m = 1 + g.R(3);
    for (uint32_t j = 0; j < m; j++) {
-      if (g.R(4) == 0) { const char * r = ranges[g.R(7)]; n.cls.push_back(rw::ClassItem((unsigned char)r[0], (unsigned char)r[1])); }
-      else if (optClassMeta && g.R(3) == 0) { static const char metas[] = ".+*?,|(){}$"; unsigned char c = (unsigned char)metas[g.R(sizeof(metas) - 1)]; n.cls.push_back(rw::ClassItem(c, c)); }
-      else { unsigned char c = (unsigned char)singles[g.R(sizeof(singles) - 1)]; n.cls.push_back(rw::ClassItem(c, c)); }
+      const uint32_t t = g.R(12);
+      if (t < 3) { const char * r = ranges[g.R(7)]; others.push_back(rw::ClassItem((unsigned char)r[0], (unsigned char)r[1])); }
+      else if (t < 7) { unsigned char c = (unsigned char)singles[g.R(sizeof(singles) - 1)]; others.push_back(rw::ClassItem(c, c)); }
+      else if (t < 10) { unsigned char c = (unsigned char)metas[g.R(sizeof(metas) - 1)]; others.push_back(rw::ClassItem(c, c)); meta = true; }
+      else switch (g.R(4)) { case 0: rb = true; break; case 1: dash = true; break; case 2: caret = true; break; default: bang = true; break; }
    }
-   if (g.R(8) == 0) n.cls.push_back(rw::ClassItem('-', '-'));   // a '-' in last position is a member (same in globbing and in POSIX brackets)
+   if (g.R(8) == 0) dash = true;
+   if (rb) n.cls.push_back(rw::ClassItem(']', ']'));
+   const bool dashFirst = dash && !rb && g.R(2) == 0;
+   if (dashFirst) n.cls.push_back(rw::ClassItem('-', '-'));
+   for (size_t i = 0; i < others.size(); i++) n.cls.push_back(others[i]);
+   if (caret) {
+      if (n.neg && n.cls.empty()) {   // "[^^..]": unambiguous (any character but '^' ...), but mis-tracked by the library's bracket scanner at the time of writing
+         if (optPendingCaretFirst) { vh::stat("excluded_pending_fix_negated_class_caret_first"); n.cls.push_back(rw::ClassItem('a', 'a')); } else vh::stat("class_negated_caret_first");
+      }
+      if (n.neg || !n.cls.empty()) n.cls.push_back(rw::ClassItem('^', '^')); else caret = false;
+   }
+   if (bang) { if (n.neg || !n.cls.empty()) n.cls.push_back(rw::ClassItem('!', '!')); else bang = false; }
+   if (dash && !dashFirst) n.cls.push_back(rw::ClassItem('-', '-'));
+   if (n.cls.empty()) n.cls.push_back(rw::ClassItem('a', 'a'));
+   if (meta) vh::stat("class_with_metachar_member"); if (rb) vh::stat("class_with_rbracket_first"); if (dash) vh::stat(dashFirst ? "class_with_dash_first" : "class_with_dash_last");
+   if (caret) vh::stat("class_with_caret_member"); if (bang) vh::stat("class_with_bang_member"); if (n.neg) vh::stat("class_negated");
+   (void)alpha;
    return n;
 }
 static rw::Seq GenSeq(vh::Rng & g, const GenOpts & o, int depth, int & budget, int & stars)
@@ -69,7 +94,7 @@ static rw::Seq GenSeq(vh::Rng & g, const GenOpts & o, int depth, int & budget, i
       if (t < 5) { unsigned char c = (unsigned char)Pick(g, *o.alpha); s.push_back(rw::Node::Lit(c, o.over && g.R(3) == 0)); }
       else if (t < 7) { if (stars < 5) { stars++; s.push_back(rw::Node::Star()); } else s.push_back(rw::Node::Any1()); }
       else if (t == 7) s.push_back(rw::Node::Any1());
-      else if (t < 10) s.push_back(GenClass(g));
+      else if (t < 10) s.push_back(GenClass(g, *o.alpha));
       else if (depth < o.maxDepth) {
          rw::Node x; x.k = rw::Node::GROUP; const uint32_t m = 1 + g.R(3);
          for (uint32_t j = 0; j < m; j++) x.alts.push_back(GenSeq(g, o, depth + 1, budget, stars));
@@ -157,6 +182,8 @@ static int Want(const rw::Pattern & p, const std::string & subject)
    if (corner) { vh::stat(std::string("unspecified_numeric_") + corner); return 2; }
    return rw::Match(p, subject) ? 1 : 0;
 }
+// its own stable key for the one known-unrepaired construct, so that everything else can be judged
+static std::string KeyFor(const std::string & patternText, const std::string & part, const std::string & key) { return patternText.find("[^^") != std::string::npos ? part + "|class-negated-caret-first" : key; }
 static std::string Feature(const rw::Pattern & p, bool over)
 {
    if (p.numeric) return p.negate ? "negated-numeric-range" : "numeric-range";
@@ -208,7 +235,7 @@ static bool CaseExact(long k, uint64_t cs)
       if (!p.numeric) { for (size_t i = 0; i < p.alts.size(); i++) { CountConstructs(p.alts[i]); if (p.alts[i].empty()) vh::stat("empty_top_level_alternative"); vh::statmax("max_nesting", rw::Depth(p.alts[i])); } }
       if (HasWildcards(p)) sawWild = true;
       const std::string ctx = "pattern " + Show(text) + " (" + Feature(p, o.over) + vh::fmt(", pattern %u of the case's matcher object)", pi);
-      if (r.IsError()) { vh::viol("exact|setpattern-rejects-documented-pattern|" + Feature(p, o.over), ctx + ": SetPattern returned " + r()); bad = true; break; }
+      if (r.IsError()) { vh::viol(KeyFor(text, "exact", "exact|setpattern-rejects-documented-pattern|" + Feature(p, o.over)), ctx + ": SetPattern returned " + r()); bad = true; break; }
       if (sm->GetPattern() != text.c_str()) { vh::viol("exact|GetPattern", ctx); bad = true; break; }
       const bool can = CanWildcardStringMatchMultipleValues(text.c_str()), uniq = sm->IsPatternUnique();
       if (can == uniq) { vh::viol("exact|uniqueness-predicates-disagree", ctx + vh::fmt(": CanWildcardStringMatchMultipleValues=%d IsPatternUnique=%d", (int)can, (int)uniq)); bad = true; break; }
@@ -229,7 +256,7 @@ static bool CaseExact(long k, uint64_t cs)
          if (j >= 5 && j < 8) vh::stat(want ? "neighbours_expected_match" : "neighbours_expected_nomatch");
          if (want) { sawPos = true; matched.insert(t); } else sawNeg = true;
          if ((int)got != want) {
-            vh::viol(std::string(got ? "exact|false-accept|" : "exact|false-reject|") + Feature(p, o.over), ctx + " subject " + Show(t) + vh::fmt(": Match()=%d, documented meaning says %d", (int)got, want));
+            vh::viol(KeyFor(text, "exact", std::string(got ? "exact|false-accept|" : "exact|false-reject|") + Feature(p, o.over)), ctx + " subject " + Show(t) + vh::fmt(": Match()=%d, documented meaning says %d", (int)got, want));
             bad = true;
          }
       }
@@ -398,14 +425,14 @@ static bool CasePath(long k, uint64_t cs)
       for (uint32_t j = 0; j < nc; j++) { pc.push_back(GenClause(g, true)); ct.push_back(pc.back().text); }
       const std::string text = Join(ct); dig = vh::fnvs(text, dig);
       status_t r = pm.PutPathString(text.c_str(), ConstQueryFilterRef());
-      if (r.IsError()) { vh::viol("path|PutPathString-rejects-documented-pattern", "path pattern " + Show(text) + ": " + r()); return false; }
+      if (r.IsError()) { vh::viol(KeyFor(text, "path", "path|PutPathString-rejects-documented-pattern"), "path pattern " + Show(text) + ": " + r()); return false; }
       pats.push_back(pc); texts.push_back(text); vh::stat("path_patterns");
    }
    // one SegmentedStringMatcher: whole-pattern negation only (a leading ~ belongs to the whole pattern there)
    std::vector<Clause> sp; std::vector<std::string> st; { const uint32_t nc = 1 + g.R(3); for (uint32_t j = 0; j < nc; j++) { sp.push_back(GenClause(g, false)); st.push_back(sp.back().text); } }
    const bool sneg = (g.R(6) == 0); const std::string stext = std::string(sneg ? "~" : "") + Join(st);
    SegmentedStringMatcher ssm; status_t sr = ssm.SetPattern(stext.c_str(), true);
-   if (sr.IsError()) { vh::viol("path|SegmentedStringMatcher-rejects-documented-pattern", "pattern " + Show(stext) + ": " + sr()); return false; }
+   if (sr.IsError()) { vh::viol(KeyFor(stext, "path", "path|SegmentedStringMatcher-rejects-documented-pattern"), "pattern " + Show(stext) + ": " + sr()); return false; }
    std::string all; for (size_t i = 0; i < texts.size(); i++) { all += Show(texts[i]); all += " "; }
    for (int j = 0; j < 8 && !bad; j++) {
       const bool fromSeg = (j >= 5);
@@ -422,7 +449,7 @@ static bool CasePath(long k, uint64_t cs)
       if (want == 2) vh::stat("unspecified_path_decisions");
       else {
          vh::stat(want ? "paths_expected_match" : "paths_expected_nomatch"); if (want) sawPos = true; else sawNeg = true;
-         if ((int)got != want) { vh::viol(got ? "path|PathMatcher-false-accept" : "path|PathMatcher-false-reject", "patterns " + all + "path " + Show(path) + vh::fmt(": MatchesPath()=%d, every-clause-matches-its-segment says %d", (int)got, want)); bad = true; break; }
+         if ((int)got != want) { vh::viol(KeyFor(all, "path", got ? "path|PathMatcher-false-accept" : "path|PathMatcher-false-reject"), "patterns " + all + "path " + Show(path) + vh::fmt(": MatchesPath()=%d, every-clause-matches-its-segment says %d", (int)got, want)); bad = true; break; }
       }
       for (int prefixOK = 0; prefixOK < 2 && !bad; prefixOK++) {
          int w = WantPath(sp, segs, prefixOK != 0);
@@ -430,7 +457,7 @@ static bool CasePath(long k, uint64_t cs)
          if (sneg) w = !w;
          const bool sg = ssm.Match(path.c_str(), prefixOK != 0);
          vh::stat(w ? "segmented_expected_match" : "segmented_expected_nomatch");
-         if ((int)sg != w) { vh::viol(sg ? "path|SegmentedStringMatcher-false-accept" : "path|SegmentedStringMatcher-false-reject", "pattern " + Show(stext) + " path " + Show(path) + vh::fmt(" prefixMatchOkay=%d: Match()=%d, expected %d", prefixOK, (int)sg, w)); bad = true; }
+         if ((int)sg != w) { vh::viol(KeyFor(stext, "path", sg ? "path|SegmentedStringMatcher-false-accept" : "path|SegmentedStringMatcher-false-reject"), "pattern " + Show(stext) + " path " + Show(path) + vh::fmt(" prefixMatchOkay=%d: Match()=%d, expected %d", prefixOK, (int)sg, w)); bad = true; }
       }
    }
    if (vh::want_sample()) vh::sample(vh::fmt("case %ld: paths ", k) + all + "segmented " + Show(stext));
@@ -485,6 +512,20 @@ static void Regress()
    { static const char * p[] = {"", "/", "/test", "test/me", "/test/me/thoroughly"}; static const int w[] = {0, 0, 1, 2, 3}; for (int i = 0; i < 5; i++) { vh::stat("regress_checks"); if (GetPathDepth(p[i]) != w[i]) vh::viol("regress|docex", vh::fmt("GetPathDepth(\"%s\") = %d, documented %d", p[i], GetPathDepth(p[i]), w[i])); } }
    { StringMatcher m("<5>"); vh::stat("regress_checks"); if (m.IsPatternUnique()) vh::viol("regress|docex", "<5> is documented never to be unique"); }
    { SegmentedStringMatcher m("f?" "?/b?" "?");   /* literal split in two: question-question-slash would be a trigraph */ vh::stat("regress_checks"); if (!m.Match("foo/bar/baz", true) || m.Match("foo/bar/baz", false) || !m.Match("foo/bar", false) || m.Match("foo/car", true)) vh::viol("regress|docex", "SegmentedStringMatcher f?" "?/b?" "? against foo/bar/baz with and without prefixMatchOkay"); }
+   vh::begin_case(6);   // class members are members (repaired: "[?]" became "[.]", "[,]" became "[|]", "[.]" became "[\\.]")
+   RX("class-members", "[?]", "?", 1); RX("class-members", "[?]", "a", 0); RX("class-members", "[?]", ".", 0); RX("class-members", "[,]", ",", 1); RX("class-members", "[,]", "|", 0); RX("class-members", "[,]", "", 0);
+   RX("class-members", "[.]", ".", 1); RX("class-members", "[.]", "\\", 0); RX("class-members", "[.]", "a", 0); RX("class-members", "[+]", "+", 1); RX("class-members", "[+]", "\\", 0);
+   RX("class-members", "[*x]", "*", 1); RX("class-members", "[*x]", "x", 1); RX("class-members", "[*x]", ".", 0); RX("class-members", "[*x]", "a", 0); RX("class-members", "[*x]", "", 0); RX("class-members", "[*x]", "xx", 0);
+   RX("class-members", "a[?]b", "a?b", 1); RX("class-members", "a[?]b", "axb", 0); RX("class-members", "a[?]b", "a.b", 0); RX("class-members", "a[?]*", "a?xyz", 1); RX("class-members", "a[?]*", "abxyz", 0);
+   RX("class-members", "[|(){}$]", "|", 1); RX("class-members", "[|(){}$]", "(", 1); RX("class-members", "[|(){}$]", "}", 1); RX("class-members", "[|(){}$]", "$", 1); RX("class-members", "[|(){}$]", "a", 0);
+   RX("class-members", "x,[a,b]", "a", 1); RX("class-members", "x,[a,b]", ",", 1); RX("class-members", "x,[a,b]", "x", 1); RX("class-members", "x,[a,b]", "[a", 0); RX("class-members", "([|)]x|y)", ")x", 1); RX("class-members", "([|)]x|y)", "|x", 1); RX("class-members", "([|)]x|y)", "x", 0);
+   RX("class-members", "[]a]", "]", 1); RX("class-members", "[]a]", "a", 1); RX("class-members", "[]a]", "b", 0); RX("class-members", "[^a]", "b", 1); RX("class-members", "[^a]", "a", 0); RX("class-members", "[^]a]", "]", 0); RX("class-members", "[^]a]", "?", 1);
+   RX("class-members", "[a^]", "^", 1); RX("class-members", "[a!]", "!", 1); RX("class-members", "[-a]", "-", 1); RX("class-members", "[a-]", "-", 1); RX("class-members", "[?]?", "?x", 1); RX("class-members", "[?]?", "xx", 0); RX("class-members", "[*]*", "*abc", 1); RX("class-members", "[*]*", "abc", 0);
+   RX("class-members", "[!a]", "b", -1); RX("class-members", "[a\\]b]", "]", -1); RX("class-members", "[[:alpha:]]", "a", -1);
+   vh::begin_case(7);   // "[^^..]": only a '^' directly after '[' is the complement marker (not judged while --opt pending_caretfirst=1)
+   { const int P = optPendingCaretFirst ? -1 : 0; if (P) vh::stat("pending_fix_rows", 6);
+     RX("class-negated-caret-first", "[^^]", "a", P ? P : 1); RX("class-negated-caret-first", "[^^]", "^", P ? P : 0); RX("class-negated-caret-first", "[^^]?", "ab", P ? P : 1);
+     RX("class-negated-caret-first", "[^^],x", "x", P ? P : 1); RX("class-negated-caret-first", "(a[^^]|b)", "ab", P ? P : 1); RX("class-negated-caret-first", "[^^a]*", "b.c", P ? P : 1); }
    vh::begin_case(5);   // the probe table of 55 edge patterns; -1 = outside the documented syntax (scope guards of DESIGN.md C15): run, not judged
    RX("edge-table", "<19-21>", " 20", -1); RX("edge-table", "<19-21>", "+20", -1); RX("edge-table", "<-5>", "3", 1); RX("edge-table", "<7->", "99999999999", -1); RX("edge-table", "<19-21,25>", "25", 1); RX("edge-table", "<19-21>", "", -1); RX("edge-table", "~<19-21>", "abc", -1);
    RX("edge-table", "a,b", "a", 1); RX("edge-table", "a,b", "b", 1); RX("edge-table", "a,b", "a,b", 0); RX("edge-table", "a,b", "ab", 0); RX("edge-table", "a\\,b", "a,b", 1); RX("edge-table", "a\\,b", "a", 0); RX("edge-table", "(a|b)c", "bc", 1); RX("edge-table", "(a|b)c", "abc", 0);
@@ -504,7 +545,7 @@ int main(int argc, char ** argv)
    vh::init(argc, argv);
    vh::Ctx & c = vh::ctx();
    const std::string mode = vh::opt("mode", "all");
-   optClassMeta = vh::optl("classmeta", 0) != 0;
+   optPendingCaretFirst = vh::optl("pending_caretfirst", 0) != 0;
    if (mode == "regress") { Regress(); return vh::finish(); }
    for (long k = c.from; k < c.from + c.cases; k++) {
       vh::begin_case(k);
